@@ -62,10 +62,27 @@ class OnlyLt:
     def __repr__(s): return "OnlyLt(%r)" % (s.v,)
 
 
+class Coin:
+    """a student class with an attribute literally named `value` (the proxy's own slot name)"""
+
+    def __init__(s, value, name='dime'):
+        s.value = value
+        s.name = name
+
+    def __eq__(s, o): return isinstance(o, Coin) and (s.value, s.name) == (o.value, o.name)
+    def __hash__(s): return hash((s.value, s.name))
+    def __add__(s, o): return Coin(s.value + (o.value if isinstance(o, Coin) else o), s.name)
+    def __radd__(s, o): return Coin(o + s.value, s.name)
+    def __lt__(s, o): return s.value < (o.value if isinstance(o, Coin) else o)
+    def __bool__(s): return s.value > 5
+    def __len__(s): return 2
+    def __repr__(s): return "Coin(%r, %r)" % (s.value, s.name)
+
+
 VALS = {
     'int': [7, -2, 0], 'float': [2.5, float('nan'), -0.5], 'bool': [True, False], 'str': ['ab', '', '%d'],
     'list': [[1, 2], []], 'tuple': [(1, 2), ()], 'dict': [{'a': 1}, {'a': 2, 'b': 3}], 'set': [{1, 2}, {2, 3}],
-    'none': [None], 'complex': [1 + 2j], 'full': [Full(3)], 'ni': [NI()], 'onlylt': [OnlyLt(1)],
+    'none': [None], 'complex': [1 + 2j], 'full': [Full(3)], 'ni': [NI()], 'onlylt': [OnlyLt(1)], 'coin': [Coin(10), Coin(0)],
 }
 MORE = {'int': [255, 1], 'float': [float('inf'), 1e-9], 'str': ['a b', 'AB'], 'list': [[[1], 'x'], [2, 1]], 'tuple': [(2,), ('a', 1)],
         'dict': [{}, {1: 'one'}], 'set': [set(), {'a'}], 'frozenset': [frozenset({1, 2})], 'bytes': [b'ab'], 'range': [range(3)],
@@ -131,6 +148,8 @@ def same(a, b):
             return b != b
         if isinstance(a, (Full, OnlyLt)):
             return a.v == b.v or (a.v != a.v and b.v != b.v)
+        if isinstance(a, Coin):
+            return repr((_deep_unwrap(a.value), a.name)) == repr((_deep_unwrap(b.value), b.name))
         return a == b or repr(a) == repr(b)
     except Exception:
         return False
